@@ -1,9 +1,12 @@
 #!/bin/sh
-# Offline build of the monitoring harness against /repo's working tree (hooks on).
+# Offline build of the monitoring harness against /repo's working tree (hooks on): the plain binary and the two typed flavours.
 set -e
 cd "$(dirname "$0")"
 export CARGO_NET_OFFLINE=true
-export CARGO_TARGET_DIR="$(pwd)/target"
 [ -f harness/Cargo.lock ] || cp /repo/Cargo.lock harness/Cargo.lock
-(cd harness && cargo build --release --offline)
+(cd harness && CARGO_TARGET_DIR="$(pwd)/../target" cargo build --release --offline) &
+(cd harness && CARGO_TARGET_DIR="$(pwd)/../target-typed" cargo build --release --offline --features typed) &
+(cd harness && CARGO_TARGET_DIR="$(pwd)/../target-big" cargo build --release --offline --features big) &
+wait
+[ -x target/release/cvh ] && [ -x target-typed/release/cvh ] && [ -x target-big/release/cvh ]
 echo "setup ok"
